@@ -165,10 +165,22 @@ def run(ctx):
         ctx.ob("R12.6", "header line %d rejected when it does not scan" % (k_ + 1), okr, site=A.where(c), what="load_from_file does not return a negative value when header line %d fails to scan" % (k_ + 1))
     # writer and reader agree on the fixed words of the header
     fsv = us.function("save_to_file")
-    wl = "".join(A.string_literal(y) or "" for y in A.walk(us.body(fsv)) if y.get("kind") == "StringLiteral")
     rl = "".join(A.string_literal(A.kids(c)[2]) or "" for c in scans)
-    words_w = _re.findall(r'[A-Za-z]{2,}', wl)
     words_r = [w for w in _re.findall(r'[A-Za-z]{2,}', _re.sub(r'%%|%\d*[a-z]+', ' ', rl))]
+
+    def _lit_words(f_):
+        return _re.findall(r'[A-Za-z]{2,}', "".join(A.string_literal(y) or "" for y in A.walk(us.body(f_)) if y.get("kind") == "StringLiteral"))
+    words_w = _lit_words(fsv)
+    if not set(words_w) & set(words_r):
+        # the header may be composed in a helper of the unit: the one called from save_to_file whose literals share a word with the scanned lines
+        helpers6 = []
+        for c_ in A.calls_in(us.body(fsv)):
+            for h_ in [f_ for q_, fl_ in us.functions.items() if q_.split("::")[-1] == (A.callee_name(c_) or "") for f_ in fl_ if us.body(f_) is not None]:
+                if h_ not in helpers6 and set(_lit_words(h_)) & set(words_r):
+                    helpers6.append(h_)
+        if len(helpers6) != 1:
+            raise AnalysisBroken("R12.6: where save_to_file composes the header lines was not found (%d candidate helpers)" % len(helpers6))
+        words_w = _lit_words(helpers6[0])
     ctx.ob("R12.6", "header words", words_w == words_r and "savefile" in words_w, site=A.where(fsv), detail={"written": words_w, "scanned": words_r},
            what="save_to_file writes the header words %s, load_from_file scans %s" % (words_w, words_r))
     # ---- R12.3
